@@ -76,6 +76,8 @@ package pair
 //@   pure
 //@   ensures err == nil ==> fresh(s) && s.session != nil && s.PrivateKey == nil
 //@   ensures err != nil ==> s == nil
+// every exchange has SRP state of its own (ephemeral secret b, premaster secret S): a proof is bound to one exchange
+//@   ensures own: err == nil ==> fresh(s.session)
 //@   ensures keys: err == nil ==> seq(s.PublicKey) == srp_B(s.session) && seq(s.Salt) == srp_salt(s.session) && len(s.Salt) == 16 && seq(s.Username) == seq(username)
 //@   ensures params: err == nil ==> srp_group(srp_of(s.session)) == "rfc5054.3072" && srp_sha512(srp_of(s.session)) && srp_kdfIsHAP(srp_of(s.session)) && srp_user(s.session) == seq("Pair-Setup") &&
 //@        srp_sessverifier(s.session) == srp_verifier(srp_of(s.session), srp_salt(s.session), seq(pin))
@@ -142,6 +144,9 @@ package pair
 //@        tlvget(opened, 1) == seq(setup.session.Username) && tlvget(opened, 3) == devpub(setup.device) &&
 //@        tlvget(opened, 10) == ed25519_sign(devpriv(setup.device), cat(hkdf(old(seq(setup.session.PrivateKey)), seq("Pair-Setup-Accessory-Sign-Salt"), seq("Pair-Setup-Accessory-Sign-Info")), seq(setup.session.Username), devpub(setup.device))))
 //@   ensures m6only: err == nil ==> forall(t, 0, 256, t != 5 && t != 6 && t != 7 ==> cval(out, t) == empty())
+// a success answer means the controller's name and key were handed to the pairing database in this very exchange
+// (whatever was stored under that name before): otherwise the following pair-verify of that controller must fail
+//@   ensures m6stored: err == nil && cval(out, 7) == empty() ==> dbver(setup.database) == old(dbver(setup.database)) + 1
 
 // ---------------------------------------------------------------- pair-verify session and controller (C03, C13)
 
